@@ -12,6 +12,7 @@ import Adsg.Model.Conn
 import Adsg.Model.Enc
 import Adsg.Model.Cache
 import Adsg.Model.Select
+import Adsg.Model.ConnGraph
 open Lean Adsg
 
 namespace Drv
@@ -292,6 +293,50 @@ def opGetBest (j : Json) : R Json := do
   let np ← fieldD j "n_priority" (optOf nat) none
   return jOpt jNat (getBest p scores byInf np)
 
+/-! ### connection choices at graph level -/
+
+def member (j : Json) : R (Node × Deg × Bool) := do
+  return (← nat (← field j "node"), ← deg (← field j "deg"), ← bool (← field j "rep"))
+
+def connector (j : Json) : R Connector := do
+  return { node := ← nat (← field j "node"),
+           deg := ← fieldD j "deg" deg (.list []),
+           rep := ← fieldD j "rep" bool false,
+           members := ← fieldD j "members" (listOf member) [] }
+
+def connChoice (j : Json) : R ConnChoice := do
+  return { src := ← listOf connector (← field j "src"), tgt := ← listOf connector (← field j "tgt"),
+           excluded := ← fieldD j "excluded" (listOf (pairOf nat nat)) [] }
+
+def jExistence (e : Existence) : Json :=
+  Json.mkObj [("src", jList (jOpt (jList jNat)) e.srcOv), ("tgt", jList (jOpt (jList jNat)) e.tgtOv)]
+
+/-- For every architecture (row) of the selection part: node set, whether each connection choice is
+    present, its existence pattern and its valid connection sets. -/
+def opConnGraph (j : Json) : R Json := do
+  let g ← dsg (← field j "g")
+  let ks ← listOf connChoice (← field j "conn")
+  let maxSets ← fieldD j "max_sets" nat 400
+  let asg := (allAssigns g).filter (admissible g)
+  let rows := allRows g
+  let out := rows.map (fun r =>
+    match asg.find? (fun a => row g a == r) with
+    | none => Json.null
+    | some a =>
+      let X := closure g a
+      let per := ks.map (fun k =>
+        let e := existenceOf X k
+        let sets := connSets X k
+        Json.mkObj [("present", Json.bool (connPresent X k)), ("pattern", jExistence e),
+          ("n_sets", jNat sets.length), ("sets", jList jMat (sets.take maxSets)),
+          ("n_sets_proc", jNat (connSetsProc X k).length),
+          ("sets_graph", jList jMat ((connSetsGraph X k).take maxSets)), ("n_sets_graph", jNat (connSetsGraph X k).length)])
+      Json.mkObj [("row", jList (jOpt jNat) r), ("nodes", jList jNat (sortNat X)), ("conn", Json.arr per.toArray)])
+  let base := ks.map (fun k => Json.mkObj [("max", jMat (maxMat (baseSettings k) {})),
+      ("src", jList (fun c : CNode => Json.mkObj [("deg", match c.deg with | .list ds => Json.mkObj [("list", jList jNat ds)] | .atLeast m => Json.mkObj [("min", jNat m)]), ("rep", Json.bool c.rep)]) (baseSettings k).src),
+      ("tgt", jList (fun c : CNode => Json.mkObj [("deg", match c.deg with | .list ds => Json.mkObj [("list", jList jNat ds)] | .atLeast m => Json.mkObj [("min", jNat m)]), ("rep", Json.bool c.rep)]) (baseSettings k).tgt)])
+  return Json.mkObj [("archs", Json.arr out.toArray), ("base", Json.arr base.toArray)]
+
 def dispatch (op : String) (j : Json) : R Json :=
   match op with
   | "ping" => return Json.str "pong"
@@ -305,6 +350,7 @@ def dispatch (op : String) (j : Json) : R Json :=
   | "bounded_comp" => opBoundedComp j
   | "eager" => opEager j
   | "key_eq" => opKeyEq j
+  | "conn_graph" => opConnGraph j
   | "get_best" => opGetBest j
   | "correct_value" => opCorrect j
   | "decode_dv" => opDecodeDV j
